@@ -14,7 +14,8 @@ Mirrors `geonet/router.py` (and the LocT get-or-create of `geonet/location_table
   lsStoreTimer     gn_ls_request / _ls_retransmit 2nd section under _ls_lock
   lsRetransmitCheck _ls_retransmit 1st section    under _ls_lock (give up: drop buffer | count+1)
   lsReplyPop       gn_data_indicate_ls_reply      under _ls_lock, nested loc_t_lock
-  lsFlushOne       … `for req in buffered: gn_data_request_guc(req)`  one iteration (getSN, readEgo, send)
+  lsFlushPick      … `for req in buffered: gn_data_request_guc(req)`: each iteration runs the whole GeoUnicast
+                   request body again (lookup; send | register/queue again + LS request), under its own operation id
   loctPurge        LocationTable.refresh_table    under loc_t_lock (drops an entry; only used by the `_witness`)
 Branches are encoded with per-operation registers (`reg o slot`), i.e. thread-local variables.
 The decomposition is tied to the source by `blocks_*` theorems below (`decide` against `Generated.Locks`).
@@ -156,23 +157,74 @@ def cbfSend (o k : Nat) (s : St) : St :=
              cbfPend := upd s.cbfPend k (s.cbfPend k - 1), reg := upd2 s.reg o 2 0 }
   else s
 
+/-- `_cbf_discard` (fix C06-cbf-duplicate-discards) under `_cbf_lock`: a duplicate recognised by the DPL pops the
+buffered copy; the timer is cancelled after the section -/
+def cbfDiscard (o k : Nat) (s : St) : St :=
+  if s.cbf k then
+    { s with cbf := upd s.cbf k false, cbfCan := upd s.cbfCan k (s.cbfCan k + 1),
+             reg := upd2 (upd2 s.reg o 8 (s.cbfTok k)) o 10 1 }
+  else { s with reg := upd2 s.reg o 10 0 }
+
 /-- LocationTableEntry.check_duplicate_sn under `dpl_lock` (a duplicate raises DuplicatedPacketException) -/
 def dplCheck (o k : Nat) (s : St) : St :=
   if s.dpl k then { s with reg := upd2 s.reg o 9 0 } else { s with dpl := upd s.dpl k true, reg := upd2 s.reg o 9 1 }
 
-/-- `de_entry = self.location_table.get_entry(dest)` -/
-def gucLookup (o d : Nat) (s : St) : St := { s with reg := upd2 s.reg o 3 (if s.loct d then 1 else 0) }
+/-- `de_entry = self.location_table.get_entry(dest)`; usable (register 3 := 1) iff it exists and (`fx`, commit
+"GeoUnicast requests issued during a pending location-service lookup keep their order") is not a pending placeholder;
+otherwise register 3 := 2 (0 = the request body is not active) -/
+def gucLookup (fx : Bool) (o d : Nat) (s : St) : St :=
+  { s with reg := upd2 s.reg o 3 (if s.loct d && !(fx && s.pending d) then 1 else 2) }
 
-/-- first `_ls_lock` section of gn_ls_request -/
-def lsRegisterOrQueue (o r d : Nat) (s : St) : St :=
-  if s.loct d && s.pending d then
-    { s with lsBuf := upd s.lsBuf d (s.lsBuf d ++ [r]), lsQueued := upd s.lsQueued d (r :: s.lsQueued d),
-             reg := upd2 s.reg o 4 0 }
+/-- the request handled by operation `o`: request id in register 6, register 11 = 1 iff it was popped by a reply block
+and is being re-submitted (`for req in buffered: self.gn_data_request_guc(req)`); register 5 := 1 activates the body -/
+def gucInit (o r : Nat) (s : St) : St := { s with reg := upd2 (upd2 (upd2 s.reg o 6 r) o 11 0) o 5 1 }
+
+/-- `link_layer.send` of the GeoUnicast packet.  For a re-submitted request the ghost bookkeeping moves it from
+"in flight" to "sent"; the ghost guard `∈ lsFlight d` says that the request held in the thread-local variable is one
+that a reply block popped and that has not been handled yet (redundant when operation ids are unique; the
+correspondence driver runs the same definition). -/
+def gucSend (o d : Nat) (s : St) : St :=
+  let r := s.reg o 6
+  if s.reg o 11 = 1 then
+    if r ∈ s.lsFlight d then
+      { s with sent := ⟨2, r, s.reg o 0, s.reg o 1⟩ :: s.sent, lsSent := upd s.lsSent d (r :: s.lsSent d),
+               lsFlight := upd s.lsFlight d ((s.lsFlight d).erase r) }
+    else s
+  else { s with sent := ⟨2, r, s.reg o 0, s.reg o 1⟩ :: s.sent }
+
+/-- `location_table.ensure_entry(dest)` inside the `_ls_lock` section (both branches of the code with the LS-order
+commit call it): the placeholder LocTE becomes visible to `get_entry` BEFORE `ls_pending` is set -/
+def lsEnsure (d : Nat) (s : St) : St := { s with loct := upd s.loct d true }
+
+/-- the rest of the first `_ls_lock` section of gn_ls_request, without the ghost bookkeeping.
+`fx = true` (code with the LS-order commit): a lookup in progress is also recognised by its retransmit counter;
+the entry was fetched/created by `lsEnsure` just before, `ls_pending := True` lands on that entry object (it has no
+effect on the table if a refresh_table dropped the object in between).  The branch condition is evaluated here
+although the code reads it before `ensure_entry`: both agree because pending ⇒ entry exists ∧ counter exists
+(`LsNoLossB`) and only `_ls_lock` sections change `ls_pending`/the counter.
+`fx = false` (code before that commit): condition on the entry alone; the new-lookup branch creates the entry. -/
+def lsRegCore (fx : Bool) (o r d : Nat) (s : St) : St :=
+  if (s.loct d && s.pending d) || (fx && (s.lsCnt d).isSome) then
+    { s with pending := if fx && s.loct d then upd s.pending d true else s.pending,
+             lsBuf := upd s.lsBuf d (s.lsBuf d ++ [r]), reg := upd2 s.reg o 4 0 }
   else
-    { s with loct := upd s.loct d true, pending := upd s.pending d true,
+    { s with loct := if fx then s.loct else upd s.loct d true,
+             pending := if fx && !s.loct d then s.pending else upd s.pending d true,
              lsLost := upd s.lsLost d (s.lsBuf d ++ s.lsLost d),
-             lsBuf := upd s.lsBuf d [r], lsCnt := upd s.lsCnt d (some 0),
-             lsQueued := upd s.lsQueued d (r :: s.lsQueued d), reg := upd2 s.reg o 4 1 }
+             lsBuf := upd s.lsBuf d [r], lsCnt := upd s.lsCnt d (some 0), reg := upd2 s.reg o 4 1 }
+
+/-- … with the ghost bookkeeping: a fresh request is recorded as queued; a re-submitted one (register 11 = 1, ghost
+guard as in `gucSend`) goes from "in flight" back into the buffer -/
+def lsRegisterOrQueue (fx : Bool) (o d : Nat) (s : St) : St :=
+  let r := s.reg o 6
+  if s.reg o 11 = 1 then
+    if r ∈ s.lsFlight d then
+      let t := lsRegCore fx o r d s
+      { t with lsFlight := upd t.lsFlight d ((t.lsFlight d).erase r) }
+    else s
+  else
+    let t := lsRegCore fx o r d s
+    { t with lsQueued := upd t.lsQueued d (r :: t.lsQueued d) }
 
 /-- second `_ls_lock` section of gn_ls_request: `old = pop; if old: old.cancel(); _ls_timers[dest] = timer` -/
 def lsStoreTimer (o d : Nat) (s : St) : St :=
@@ -206,20 +258,12 @@ def lsReplyPop (o d : Nat) (s : St) : St :=
 /-- `if timer is not None: timer.cancel()` after the section -/
 def lsReplyCancel (o : Nat) (s : St) : St := { s with tCancelled := upd s.tCancelled (s.reg o 8) true }
 
-/-- one iteration of `for req in buffered: self.gn_data_request_guc(req)`: pick the request (thread-local) -/
-def lsFlushPick (o : Nat) (s : St) : St :=
+/-- one iteration of `for req in buffered: self.gn_data_request_guc(req)`: pick the next request of the reply operation
+`o` (thread-local list) for the iteration's own operation id `ok` -/
+def lsFlushPick (o ok : Nat) (s : St) : St :=
   match s.regL o with
-  | [] => { s with reg := upd2 s.reg o 5 0 }
-  | r :: rest => { s with regL := upd s.regL o rest, reg := upd2 (upd2 s.reg o 5 1) o 6 r }
-
-/-- … and send it (GUC with the SN and PV read in between).  The ghost guard `∈ lsFlight d` says that the request
-held in the thread-local variable is one this reply popped and has not sent yet (it is redundant when operation
-ids are unique; correspondence runs on the very same definition). -/
-def lsFlushSend (o d : Nat) (s : St) : St :=
-  if s.reg o 6 ∈ s.lsFlight d then
-    { s with sent := ⟨2, s.reg o 6, s.reg o 0, s.reg o 1⟩ :: s.sent, lsSent := upd s.lsSent d (s.reg o 6 :: s.lsSent d),
-             lsFlight := upd s.lsFlight d ((s.lsFlight d).erase (s.reg o 6)) }
-  else s
+  | [] => { s with reg := upd2 s.reg ok 5 0 }
+  | r :: rest => { s with regL := upd s.regL o rest, reg := upd2 (upd2 (upd2 s.reg ok 5 1) ok 6 r) ok 11 1 }
 
 /-- LocationTable.refresh_table dropping the entry of `d` (a placeholder has TST 0 and is always "expired") -/
 def loctPurge (d : Nat) (s : St) : St := { s with loct := upd s.loct d false, pending := upd s.pending d false }
@@ -232,10 +276,10 @@ inductive Op where
   | gbc (o : Nat)                   -- gn_data_request_gbc
   | ego (v : Nat)                   -- refresh_ego_position_vector
   | cbfArrive (o k : Nat)           -- gn_area_cbf_forwarding (forwarder operation for key k)
-  | gbcRx (o k : Nat)               -- gn_data_indicate of a GBC frame with key k (DPL, then CBF)
+  | gbcRx (o k : Nat) (disc : Bool) -- gn_data_indicate of a GBC frame with key k (DPL, then CBF; `disc`: duplicates discard the buffered copy)
   | cbfFire (o k src : Nat)         -- timer thread of the timer created by `src`: _cbf_timeout
-  | guc (o r d : Nat)               -- gn_data_request_guc of request r to destination d
-  | lsReply (o d n : Nat)           -- gn_data_indicate_ls_reply from d (flush loop unrolled n times)
+  | guc (o r d : Nat) (fx : Bool)   -- gn_data_request_guc of request r to destination d (`fx`: code with the LS-order commit)
+  | lsReply (o d n : Nat) (fx : Bool)  -- gn_data_indicate_ls_reply from d (flush loop unrolled n times; iteration k has id 1000(k+1)+o)
   | lsFire (o d src mr : Nat)       -- timer thread of the timer created by `src`: _ls_retransmit
   | purge (d : Nat)                 -- refresh_table dropping d (behaviour before fix C15-ls-placeholder-purge)
   deriving DecidableEq, Repr
@@ -269,8 +313,17 @@ def sendLsReq (o d : Nat) (store : St → St) : List TI :=
   tsect lkEgo (.gblk o 4 1 (readEgo o)) ++ tsect lkSN (.gblk o 4 1 (getSN o)) ++
   [.gblk o 4 1 (sendPkt o 3 d true), .gblk o 4 1 (timerStart o)] ++ tsect lkLs (.gblk o 4 1 store)
 
-def flushIter (o d : Nat) : List TI :=
-  [.loc (lsFlushPick o)] ++ tsect lkSN (.gblk o 5 1 (getSN o)) ++ [.gblk o 5 1 (readEgo o), .gblk o 5 1 (lsFlushSend o d)]
+/-- the body of gn_data_request_guc for the request held in register 6 of `o` (active iff register 5 = 1) -/
+def gucBody (o d : Nat) (fx : Bool) : List TI :=
+  tsect lkLocT (.gblk o 5 1 (gucLookup fx o d)) ++
+  -- usable destination: SN, PV, send
+  tsect lkSN (.gblk o 3 1 (getSN o)) ++ [.gblk o 3 1 (readEgo o), .gblk o 3 1 (gucSend o d)] ++
+  -- otherwise: location service
+  (if fx then [.acq lkLs, .acq lkLocT, .gblk o 3 2 (lsEnsure d), .rel lkLocT, .gblk o 3 2 (lsRegisterOrQueue fx o d), .rel lkLs]
+   else tsect2 lkLs lkLocT (.gblk o 3 2 (lsRegisterOrQueue fx o d))) ++ sendLsReq o d (lsStoreTimer o d)
+
+def flushIter (o d : Nat) (fx : Bool) (k : Nat) : List TI :=
+  [.loc (lsFlushPick o (1000 * (k + 1) + o))] ++ gucBody (1000 * (k + 1) + o) d fx
 
 def compileT : Op → List TI
   | .sn o => tsect lkSN (.blk (getSN o))
@@ -278,20 +331,16 @@ def compileT : Op → List TI
   | .gbc o => tsect lkSN (.blk (getSN o)) ++ [.blk (readEgo o), .blk (sendPkt o 1 o true)]
   | .ego v => tsect lkEgo (.blk (egoSwap v))
   | .cbfArrive o k => tsect2 lkCbf lkLocT (.blk (cbfArrive o k)) ++ [.gblk o 2 1 (timerStart o)]
-  | .gbcRx o k =>
+  | .gbcRx o k disc =>
       tsect lkLocT .nop ++ tsect lkDpl (.blk (dplCheck o k)) ++
-      tsect2 lkCbf lkLocT (.gblk o 9 1 (cbfArrive o k)) ++ [.gblk o 9 1 (whenReg o 2 1 (timerStart o))]
+      tsect2 lkCbf lkLocT (.gblk o 9 1 (cbfArrive o k)) ++ [.gblk o 9 1 (whenReg o 2 1 (timerStart o))] ++
+      (if disc then tsect lkCbf (.gblk o 9 0 (cbfDiscard o k)) ++ [.gblk o 10 1 (lsReplyCancel o)] else [])
   | .cbfFire o k src =>
       [.blk (timerCheck o src)] ++ tsect lkCbf (.gblk o 7 1 (cbfExpire o k)) ++ [.gblk o 2 1 (cbfSend o k)]
-  | .guc o r d =>
-      tsect lkLocT (.blk (gucLookup o d)) ++
-      -- known destination: SN, PV, send
-      tsect lkSN (.gblk o 3 1 (getSN o)) ++ [.gblk o 3 1 (readEgo o), .gblk o 3 1 (sendPkt o 2 r true)] ++
-      -- unknown: location service
-      tsect2 lkLs lkLocT (.gblk o 3 0 (lsRegisterOrQueue o r d)) ++ sendLsReq o d (lsStoreTimer o d)
-  | .lsReply o d n =>
+  | .guc o r d fx => [.loc (gucInit o r)] ++ gucBody o d fx
+  | .lsReply o d n fx =>
       tsect lkLocT (.blk (loctLearn d)) ++ tsect2 lkLs lkLocT (.blk (lsReplyPop o d)) ++ [.gblk o 10 1 (lsReplyCancel o)] ++
-      (List.replicate n (flushIter o d)).flatten
+      ((List.range n).map (flushIter o d fx)).flatten
   | .lsFire o d src mr =>
       [.blk (timerCheck o src)] ++ tsect2 lkLs lkLocT (.gblk o 7 1 (lsRetransmitCheck mr o d)) ++
       sendLsReq o d (lsStoreTimer' o d)
@@ -310,48 +359,48 @@ section Tie
 open Generated.Locks
 
 theorem blocks_get_sequence_number :
-    blocks .Router_get_sequence_number =
-      [([.Router_sequence_number_lock], [(.Router_sequence_number, .rmw), (.Router_sequence_number, .read)])] := by decide
+    shape .Router_get_sequence_number = [([.Router_sequence_number_lock], [.Router_sequence_number])] := by decide
 
-theorem blocks_cbf_timeout :
-    blocks .Router__cbf_timeout = [([.Router__cbf_lock], [(.Router__cbf_buffer, .read), (.Router__cbf_buffer, .write)])] := by
-  decide
+theorem blocks_cbf_timeout : shape .Router__cbf_timeout = [([.Router__cbf_lock], [.Router__cbf_buffer])] := by decide
 
 theorem blocks_cbf_forwarding :
-    blocks .Router_gn_area_cbf_forwarding =
-      [([.Router__cbf_lock], [(.Router__cbf_buffer, .read), (.Router__cbf_buffer, .write), (.Router_ego_position_vector, .read)])] := by
+    shape .Router_gn_area_cbf_forwarding = [([.Router__cbf_lock], [.Router__cbf_buffer, .Router_ego_position_vector])] := by
   decide
 
 theorem blocks_refresh_ego :
-    blocks .Router_refresh_ego_position_vector =
-      [([.Router_ego_position_vector_lock], [(.Router_ego_position_vector, .rmw)])] := by decide
+    shape .Router_refresh_ego_position_vector = [([.Router_ego_position_vector_lock], [.Router_ego_position_vector])] := by
+  decide
 
+/-- gn_ls_request: two `_ls_lock` sections – registration (buffers, counters, ls_pending), then the timer store -/
 theorem blocks_ls_request :
-    blocks .Router_gn_ls_request =
-      [([.Router__ls_lock], [(.Router__ls_packet_buffers, .write), (.ext_ls_pending, .write), (.Router__ls_retransmit_counters, .write)]),
-       ([.Router__ls_lock], [(.Router__ls_timers, .write)])] := by decide
+    shape .Router_gn_ls_request =
+      [([.Router__ls_lock], [.Router__ls_packet_buffers, .Router__ls_retransmit_counters, .ext_ls_pending]),
+       ([.Router__ls_lock], [.Router__ls_timers])] := by decide
 
 theorem blocks_ls_retransmit :
-    blocks .Router__ls_retransmit =
-      [([.Router__ls_lock], [(.Router__ls_retransmit_counters, .read), (.Router__ls_packet_buffers, .write), (.Router__ls_timers, .write),
-          (.Router__ls_retransmit_counters, .write), (.ext_ls_pending, .write)]),
-       ([.Router__ls_lock], [(.Router__ls_timers, .write)])] := by decide
+    shape .Router__ls_retransmit =
+      [([.Router__ls_lock], [.Router__ls_packet_buffers, .Router__ls_retransmit_counters, .Router__ls_timers, .ext_ls_pending]),
+       ([.Router__ls_lock], [.Router__ls_timers])] := by decide
 
 theorem blocks_ls_reply :
-    blocks .Router_gn_data_indicate_ls_reply =
-      [([.Router__ls_lock], [(.Router__ls_timers, .write), (.Router__ls_retransmit_counters, .write), (.Router__ls_packet_buffers, .write),
-          (.ext_ls_pending, .write)])] := by decide
+    shape .Router_gn_data_indicate_ls_reply =
+      [([.Router__ls_lock], [.Router__ls_packet_buffers, .Router__ls_retransmit_counters, .Router__ls_timers, .ext_ls_pending])] := by
+  decide
 
 theorem blocks_send_ls_request :
-    blocks .Router__send_ls_request_packet = [([.Router_ego_position_vector_lock], [(.Router_ego_position_vector, .read)])] := by
-  decide
+    shape .Router__send_ls_request_packet = [([.Router_ego_position_vector_lock], [.Router_ego_position_vector])] := by decide
 
 theorem blocks_ensure_entry :
-    blocks .LocationTable_ensure_entry = [([.LocationTable_loc_t_lock], [(.LocationTable_loc_t, .read), (.LocationTable_loc_t, .write)])] := by
-  decide
+    shape .LocationTable_ensure_entry = [([.LocationTable_loc_t_lock], [.LocationTable_loc_t])] := by decide
 
 theorem blocks_get_entry :
-    blocks .LocationTable_get_entry = [([.LocationTable_loc_t_lock], [(.LocationTable_loc_t, .read)])] := by decide
+    shape .LocationTable_get_entry = [([.LocationTable_loc_t_lock], [.LocationTable_loc_t])] := by decide
+
+/-- no shared attribute of the router / location table is read-modified-written outside a lock (`setup_gn_address`
+runs inside `__init__`) -/
+theorem no_unlocked_rmw :
+    accesses.all (fun x => x.kind != .rmw || !x.locks.isEmpty || x.fn == .Router_setup_gn_address
+      || x.attr == .LDMMaintenance_new_data_recieved_flag) = true := by decide +kernel
 
 /-- every access to the counter / the CBF buffer / the LS dictionaries / the LocT dictionary is under its lock -/
 theorem guarded :
